@@ -295,26 +295,9 @@ pub fn gen_world(rng: &Rng, cfg: &WorldCfg) -> (World, usize) {
     for attempt in 0..64u64 {
         let mut r = rng.fork_n("world", attempt);
         let model_raw = gen_model_text(&mut r);
-        let bn = match BooleanNetwork::try_from(model_raw.as_str()) {
-            Ok(bn) => bn,
-            Err(_) => continue,
-        };
-        let graph = match SymbolicAsyncGraph::new(&bn) {
-            Ok(g) => g,
-            Err(_) => continue,
-        };
-        if graph.unit_colored_vertices().is_empty() {
-            continue;
+        if let Some(w) = world_on_model(&mut r, cfg, model_raw) {
+            return (w, attempt as usize + 1);
         }
-        let k = cfg.min_k + r.below(cfg.max_extra_k as usize + 1) as u16;
-        let nctx = r.below(cfg.max_ctx + 1);
-        let mut labels: Vec<&str> = LABEL_POOL.to_vec();
-        r.shuffle(&mut labels);
-        let mut context = BTreeMap::new();
-        for l in labels.into_iter().take(nctx) {
-            context.insert(l.to_string(), gen_context_bdd(&mut r, &graph).to_string());
-        }
-        return (World { model: model_raw, k, context }, attempt as usize + 1);
     }
     // fall back to a fixed tiny network (never expected)
     (
@@ -325,4 +308,22 @@ pub fn gen_world(rng: &Rng, cfg: &WorldCfg) -> (World, usize) {
         },
         64,
     )
+}
+
+/// A world on a given network text (aeon): spare sets and context sets are drawn from `r`.
+pub fn world_on_model(r: &mut Rng, cfg: &WorldCfg, model: String) -> Option<World> {
+    let bn = BooleanNetwork::try_from(model.as_str()).ok()?;
+    let graph = SymbolicAsyncGraph::new(&bn).ok()?;
+    if graph.unit_colored_vertices().is_empty() {
+        return None;
+    }
+    let k = cfg.min_k + r.below(cfg.max_extra_k as usize + 1) as u16;
+    let nctx = r.below(cfg.max_ctx + 1);
+    let mut labels: Vec<&str> = LABEL_POOL.to_vec();
+    r.shuffle(&mut labels);
+    let mut context = BTreeMap::new();
+    for l in labels.into_iter().take(nctx) {
+        context.insert(l.to_string(), gen_context_bdd(r, &graph).to_string());
+    }
+    Some(World { model, k, context })
 }
